@@ -56,12 +56,12 @@ def _image_cuts(rng, ext, size, limit):
 def generate(rng, tier, index):
     exhaustive = tier == "thorough" and index % 40 == 0
     if exhaustive:
-        wp = world.gen_world_plan(rng, max_images=2, max_lines=3, max_pixels=3, large=0.0)
+        wp = world.gen_world_plan(rng, max_images=2, max_lines=3, max_pixels=3, large=0.0, huge=0.0)
         for im in wp["images"]:
             im["lines"] = rng.randint(1, 3)
             im["pixels"] = rng.randint(1, 3)
     else:
-        wp = world.gen_world_plan(rng, max_images=3, max_lines=24)
+        wp = world.gen_world_plan(rng, max_images=3, max_lines=24, huge=0.03)
     prod = synth.build(wp)
     n = rng.choice(wp["images"])["lines"]
     r = common.pick_rpc(rng, n)
